@@ -1,10 +1,11 @@
 """C01 - components run at most once, dependencies first, seeds never overwritten."""
 import ast
-from ..util import find_calls
+from ..util import find_calls, assigns_to
 
 from ..model import (AnalysisError, FUNC_TYPES, U, call_attr, call_name, dotted, enclosing, enclosing_function,
                      guard_texts, names_in, parent, short, walk_body, walk_local, ancestors, terminates)
 from ..cfg import CFG, ENTRY, EXIT
+from .. import feat
 
 DR = "insights.core.dr"
 TOPO = "insights.contrib.toposort"
@@ -452,6 +453,74 @@ def r7_closure(cx):
                "components without dependencies are added to the graph with an empty dependency set", construct="graph.update(dict((item, set()) ...))")
 
 
+GRAPH_TABLES = ("DEPENDENCIES", "DEPENDENTS")
+GRAPH_ATTRS = ("dependencies", "deps", "requires", "at_least_one", "optional")
+
+
+def _graph_writers(m):
+    """Functions / methods of dr.py that change the dependency graph after import: stores or mutating calls on DEPENDENCIES / DEPENDENTS or on a
+    delegate's dependency lists."""
+    out = []
+    for fn in [f for f in ast.walk(m.tree) if isinstance(f, FUNC_TYPES)]:
+        if fn.name == "__init__":
+            continue
+        hit = False
+        for x in walk_body(fn.body):
+            tgt = None
+            if isinstance(x, ast.Call) and isinstance(x.func, ast.Attribute) and x.func.attr in feat.MUTATORS:
+                tgt = x.func.value
+            elif isinstance(x, ast.Subscript) and isinstance(x.ctx, (ast.Store, ast.Del)):
+                tgt = x.value
+            elif isinstance(x, ast.AugAssign):
+                tgt = x.target
+            if tgt is None:
+                continue
+            t = U(tgt)
+            if any(t == g or t.startswith(g + "[") for g in GRAPH_TABLES) or (isinstance(tgt, ast.Attribute) and tgt.attr in GRAPH_ATTRS) \
+                    or (isinstance(tgt, ast.Subscript) and isinstance(tgt.value, ast.Attribute) and tgt.value.attr in GRAPH_ATTRS):
+                hit = True
+        if hit:
+            out.append(fn)
+    return out
+
+
+def r9_graph_queries_live(cx):
+    """Every decision of the engine (order, closure, sub-graphs, registry points, contexts, filters) is a walk over the dependency graph, and the graph
+    grows after import (add_dependency on a registry point, late registration).  A walk answered from a module-level memo must therefore be
+    invalidated by *every* function that changes the graph; a memo cleared only on registration hands out the graph as it was."""
+    cx.rule("C01.R9", "graph queries answer from the live dependency graph (a memo is cleared by every writer of the graph)", floor=1)
+    m = cx.repo.module(DR)
+    writers = _graph_writers(m)
+    if len(writers) < 3:
+        cx.unknown(m.tree.body[0], "expected at least three writers of the dependency graph in dr.py (add_dependent, add_dependency, _register_component), found %s" % [w.name for w in writers])
+        return
+    memos = []
+    for fn in [f for f in ast.walk(m.tree) if isinstance(f, FUNC_TYPES)]:
+        if fn in writers or fn.name in ("set_enabled", "__init__"):
+            continue
+        ps = set(params(fn))
+        for a in walk_body(fn.body):
+            if isinstance(a, ast.Assign) and isinstance(a.targets[0], ast.Subscript) and isinstance(a.targets[0].value, ast.Name) and m.top.get(a.targets[0].value.id) is not None:
+                tbl = a.targets[0].value.id
+                key_names = set(x.id for x in ast.walk(a.targets[0].slice) if isinstance(x, ast.Name))
+                for k in list(key_names):
+                    for d in assigns_to(fn, k):
+                        if getattr(d, "value", None) is not None:
+                            key_names |= set(x.id for x in ast.walk(d.value) if isinstance(x, ast.Name))
+                reads_back = any(isinstance(x, ast.Name) and x.id == tbl and isinstance(x.ctx, ast.Load) and x is not a.targets[0].value for x in ast.walk(fn))
+                if key_names & ps and reads_back:
+                    memos.append((fn, tbl, a))
+    if not memos:
+        cx.ok(m.tree.body[0], "no graph query of dr.py keeps its answers in a module-level table (%d graph writers: %s)" % (len(writers), ", ".join(sorted(w.name for w in writers))),
+              construct="no memo in dr.py")
+        return
+    for fn, tbl, a in memos:
+        missing = [w.name for w in writers if not any(isinstance(c, ast.Call) and isinstance(c.func, ast.Attribute) and U(c.func.value) == tbl and c.func.attr == "clear" for c in ast.walk(w))
+                   and not any(isinstance(x, ast.Assign) and any(U(t) == tbl for t in x.targets) for x in ast.walk(w))]
+        cx.require(not missing, a, "the memo %s of %s is cleared by every writer of the dependency graph" % (tbl, fn.name),
+                   construct="%s; not cleared in: %s" % (short(a, 50), ", ".join(sorted(set(missing)))) if missing else short(a, 60))
+
+
 def run(cx):
     repo = cx.repo
     cx.extra["explanation"] = ("C01: guards of the execution call, the no-overwrite test of Broker.__setitem__, who-may-write Broker.instances, "
@@ -470,6 +539,7 @@ def run(cx):
     cx.guard(r5b_graph_as_requested)
     cx.guard(r6_toposort_shape)
     cx.guard(r7_closure)
+    cx.guard(r9_graph_queries_live)
     # "at most once" also rests on the decomposition into sub-graphs and on the drivers (C04.R4 / C04.R5)
     from . import c04
     cx.borrow(c04.r4_subgraphs, "C04.R4", "C01.R8", "sub-graph decomposition and drivers never evaluate a component in two sub-graphs (C04.R4/R5)")
